@@ -1,8 +1,10 @@
 """C03 (partial): every wrapper store inverts on get what it applied on put, on every put path
 (R-SYM); a saved and loaded store carries every persistent field (R-FLOW); file headers agree
 between writer and reader (R-PAIR)."""
+import re
+
 from vlib import fixtures
-from rules import sym, flow, pair, sibling, tagkind, capsrc, narrow
+from rules import sym, flow, pair, sibling, tagkind, capsrc, narrow, order
 from vlib.mir import Fn, op_local
 from vlib.run import Broken
 
@@ -12,7 +14,7 @@ DZ = "compression::dict_zip::blob_store::DictZipBlobStore::"
 
 def run(ctx):
     fx = ctx.facts("default")
-    fixtures.run(ctx, ['pair', 'batch', 'delegate', 'serde', 'record', 'capsrc', 'pairaccess', 'flow'])
+    fixtures.run(ctx, ['pair', 'batch', 'delegate', 'serde', 'record', 'capsrc', 'pairaccess', 'flow', 'hint', 'builder'])
     # batch operations do to the store's state what the single-item operations do
     bfiles = sorted({fx.raw(f)['file'] for f in fx.fn_ids() if fx.raw(f)['file'].startswith('src/blob_store/') or fx.raw(f)['file'] == 'src/compression/dict_zip/blob_store.rs'})
     sibling.batch_effects(ctx, fx, bfiles)
@@ -32,6 +34,31 @@ def run(ctx):
     ctx.floor('R-TAGKIND.record.sites', 2)
     # bounded decompression in the stores (none on the pinned tree besides the async wrapper; the fixture keeps the rule alive)
     capsrc.run(ctx, fx, bfiles + ['src/concurrency/async_blob_store.rs'])
+    # ids are booked per record consumed, never from an iterator's size_hint (zero sites on the pinned tree)
+    capsrc.hint_only_reserves(ctx, fx, fx.files() if ctx.tier == 'thorough' else bfiles)
+    # bulk builders: what add_record/push collected is read when the builder is finished
+    nb = 0
+    for f in bfiles:
+        for st in sorted({(fx.raw(i)['self_ty'] or '').split('<')[0] for i in fx.fn_ids(f) if '::tests::' not in i}):
+            if st.endswith('Builder') and fx.adts.get(st):
+                nb += 1
+                flow.builder_consumes(ctx, fx, f, st)
+    ctx.instance('R-FLOW.builder.structs', nb)
+    ctx.floor('R-FLOW.builder.structs', 4)
+    ctx.floor('R-FLOW.builder.fields', 4)
+    # the trie-store builder accepts a key several times and the last value wins: its sort keeps insertion order
+    # among equal keys (comparators look at the key only)
+    nsort = 0
+    for fid in fx.fn_ids('src/blob_store/nest_louds_trie_blob_store.rs'):
+        rec = fx.raw(fid)
+        if '::tests::' in fid or not (rec['self_ty'] or '').split('<')[0].endswith('NestLoudsTrieBlobStoreBuilder'):
+            continue
+        f = Fn(rec)
+        if any(re.search(r'::sort(_unstable)?(_by(_key|_cached_key)?)?$', c['f']) for b, c in f.calls()):
+            nsort += order.forbidden_in(ctx, f, r'::sort_unstable(_by(_key)?)?$', 'R-STABLE',
+                                        'entries with equal keys keep their insertion order (stable sort)', depth=0)
+    ctx.instance('R-STABLE.sorts', nsort)
+    ctx.floor('R-STABLE.sorts', 1)
     # the offset index hands out (offsets[i], offsets[i+1]): the second is located from i + 1
     narrow.pair_accessor(ctx, fx, "blob_store::sorted_uint_vec::SortedUintVec::get2")
     fl = sym.Flow(fx)
